@@ -25,21 +25,28 @@ deriving Repr, DecidableEq, Inhabited
 inductive BSt | pending | ok | failed | routed
 deriving Repr, DecidableEq
 
+/-- child event made by processor.Spawn (split): (parent, index). Children are not stream
+    events: they are never accepted, never committed to the input. -/
+abbrev Kid := Ev × Nat
+
 structure Batch where
-  seq : Nat
-  evs : List Ev
-  st  : BSt
+  seq  : Nat
+  evs  : List Ev          -- stream events (regular ones and split parents)
+  st   : BSt
+  kids : List Kid := []   -- child events in the batch
 deriving Repr, DecidableEq
 
 /-- one batcher -/
 structure BQ where
   cur        : List Ev := []        -- events of the batch being filled
+  curKids    : List Kid := []       -- child events of the batch being filled
   full       : List Batch := []     -- sealed, not yet committed (oldest first)
   outSeq     : Nat := 0
   commitSeq  : Nat := 0
   added      : List Ev := []        -- history: every event ever appended, in order
   done       : List Ev := []        -- history: events of batches whose commit loop was entered
   committing : List Ev := []        -- rest of the commit loop in progress (inside seqMu)
+  kidsLoop   : List Kid := []       -- history: children of batches whose commit loop was entered
 deriving Repr
 
 structure State where
@@ -52,6 +59,10 @@ structure State where
   acked    : List Ev := []     -- events of batches whose send returned nil
   gaveUp   : List Ev := []     -- events reported through the error callback (retries exhausted)
   commits  : List Ev := []     -- InputPlugin.Commit calls, in order
+  parents  : List Ev := []     -- events turned child-parent by processor.Spawn
+  spawned  : List Kid := []    -- every child ever spawned
+  kidsDone : List Kid := []    -- children of batches whose send returned nil or that were given up
+  kidsAdded : List Kid := []   -- children handed to the main batcher
 deriving Repr
 
 inductive Op
@@ -61,9 +72,12 @@ inductive Op
   | sealB (dq : Bool) (k : Nat)
   | sendOk (dq : Bool) (k : Nat) (evs : List Ev)
   | sendFail (dq : Bool) (k : Nat) (evs : List Ev)
-  | giveUp (dq : Bool) (evs : List Ev)
+  | giveUp (dq : Bool) (k : Nat) (evs : List Ev)
   | bcommit (dq : Bool) (k : Nat)
   | commit (e : Ev)
+  | spawn (p : Ev) (k : Nat)          -- processor.Spawn made child k of p (p becomes child-parent)
+  | addKid (p : Ev) (k : Nat)         -- Batcher.Add of that child (main batcher)
+  | kidAck (p : Ev) (k : Nat)         -- observation only: the send function saw child k of p in a batch it returned nil for
 deriving Repr, DecidableEq
 
 def lastSeq (st : Nat) (l : List Ev) : Nat :=
@@ -80,13 +94,13 @@ def setSt (k : Nat) (evs : List Ev) (st : BSt) : List Batch → Option (List Bat
       if b.st = .pending ∧ b.evs = evs then some ({ b with st := st } :: bs) else none
     else (setSt k evs st bs).map (b :: ·)
 
-/-- first pending batch holding exactly `evs`: give it up -/
-def giveUpIn (evs : List Ev) (st : BSt) (clear : Bool) : List Batch → Option (List Batch)
+/-- the pending batch `k` holding exactly `evs`: give it up -/
+def giveUpIn (k : Nat) (evs : List Ev) (st : BSt) (clear : Bool) : List Batch → Option (List Batch)
   | [] => none
   | b :: bs =>
-    if b.st = .pending ∧ b.evs = evs then
+    if b.seq = k ∧ b.st = .pending ∧ b.evs = evs then
       some ({ b with st := st, evs := if clear then [] else b.evs } :: bs)
-    else (giveUpIn evs st clear bs).map (b :: ·)
+    else (giveUpIn k evs st clear bs).map (b :: ·)
 
 def bq (s : State) (dq : Bool) : BQ := if dq then s.dq else s.main
 def setBq (s : State) (dq : Bool) (q : BQ) : State := if dq then { s with dq := q } else { s with main := q }
@@ -110,34 +124,47 @@ def step? (s : State) : Op → Option State
     else none
   | .sealB d k =>
     let q := bq s d
-    if q.cur ≠ [] ∧ k = q.outSeq then
-      some (setBq s d { q with full := q.full ++ [⟨k, q.cur, .pending⟩], outSeq := q.outSeq + 1, cur := [] })
+    if (q.cur ≠ [] ∨ q.curKids ≠ []) ∧ k = q.outSeq then
+      some (setBq s d { q with full := q.full ++ [⟨k, q.cur, .pending, q.curKids⟩], outSeq := q.outSeq + 1,
+                               cur := [], curKids := [] })
     else none
   | .sendOk d k evs =>
+    -- `evs` = the stream events Batch.ForEach yields (split parents are skipped)
     let q := bq s d
-    match setSt k evs .ok q.full with
-    | some f => some { setBq s d { q with full := f } with acked := s.acked ++ evs }
+    match q.full.find? (fun b => b.seq = k) with
+    | some b =>
+      if b.evs.filter (fun e => !s.parents.contains e) = evs then
+        match setSt k b.evs .ok q.full with
+        | some f => some { setBq s d { q with full := f } with acked := s.acked ++ b.evs, kidsDone := s.kidsDone ++ b.kids }
+        | none => none
+      else none
     | none => none
   | .sendFail d k evs =>
     let q := bq s d
-    if q.full.any (fun b => b.seq = k ∧ b.st = .pending ∧ b.evs = evs) then some s else none
-  | .giveUp d evs =>
+    if q.full.any (fun b => b.seq = k ∧ b.st = .pending ∧ b.evs.filter (fun e => !s.parents.contains e) = evs) then some s else none
+  | .giveUp d k evs =>
+    -- `evs` = batch.events handed to the error callback (split parents included, children not listed)
     let q := bq s d
+    let kids := ((q.full.find? (fun b => b.seq = k ∧ b.st = .pending ∧ b.evs = evs)).map (·.kids)).getD []
     if !d ∧ s.hasDQ then
       -- dead queue configured: events go to Router.Fail, the batch is reset (commits nothing)
-      match giveUpIn evs .routed true q.full with
+      match giveUpIn k evs .routed true q.full with
       | some f => some { setBq s d { q with full := f } with inbox := s.inbox ++ evs }
       | none => none
     else
-      match giveUpIn evs .failed false q.full with
-      | some f => some { setBq s d { q with full := f } with gaveUp := s.gaveUp ++ evs }
+      match giveUpIn k evs .failed false q.full with
+      | some f => some { setBq s d { q with full := f } with gaveUp := s.gaveUp ++ evs, kidsDone := s.kidsDone ++ kids }
       | none => none
   | .bcommit d k =>
+    -- a batch without iterable events (only split parents) is not sent but is committed
     let q := bq s d
     match q.full with
     | b :: bs =>
-      if b.seq = k ∧ k = q.commitSeq ∧ b.st ≠ .pending ∧ q.committing = [] then
-        some (setBq s d { q with full := bs, commitSeq := q.commitSeq + 1, done := q.done ++ b.evs, committing := b.evs })
+      let noIter := b.kids.isEmpty && b.evs.all (fun e => s.parents.contains e)
+      if b.seq = k ∧ k = q.commitSeq ∧ (b.st ≠ .pending ∨ (b.st = .pending ∧ noIter)) ∧ q.committing = [] then
+        some { setBq s d { q with full := bs, commitSeq := q.commitSeq + 1, done := q.done ++ b.evs, committing := b.evs,
+                                  kidsLoop := q.kidsLoop ++ b.kids } with
+               acked := if b.st = .pending then s.acked ++ b.evs else s.acked }
       else none
     | [] => none
   | .commit e =>
@@ -147,6 +174,19 @@ def step? (s : State) : Op → Option State
     else if s.dq.committing.head? = some e then
       some { s with dq := { s.dq with committing := s.dq.committing.tail }, commits := s.commits ++ [e] }
     else none
+
+  | .spawn p k =>
+    -- processor.Spawn: p is being processed (accepted, not yet out or dropped); child k is new
+    if s.accepted.contains p ∧ !s.dropped.contains p ∧ !s.main.added.contains p ∧ !s.spawned.contains (p, k) then
+      some { s with parents := if s.parents.contains p then s.parents else s.parents ++ [p], spawned := s.spawned ++ [(p, k)] }
+    else none
+  | .addKid p k =>
+    -- children reach the output before their parent does
+    if s.spawned.contains (p, k) ∧ !s.kidsAdded.contains (p, k) ∧ !s.main.added.contains p then
+      some { s with main := { s.main with curKids := s.main.curKids ++ [(p, k)] }, kidsAdded := s.kidsAdded ++ [(p, k)] }
+    else none
+
+  | .kidAck _ _ => some s
 
 def init (hasDQ : Bool) : State := { hasDQ := hasDQ }
 
